@@ -9,6 +9,7 @@
 import AferoVerif.Model.MemMapFs
 import AferoVerif.Proofs.Path
 import AferoVerif.Proofs.Reach
+import AferoVerif.Generated.Facts
 namespace AferoVerif.C01
 open AferoVerif AferoVerif.Path
 
@@ -106,5 +107,12 @@ theorem every_name_allocated (ops : List Op) (k : Key) (f : Nat)
 
 example : (MemFs.run MemFs.init [.mkdir "/a".toList 0o755, .create "/a/f".toList, .create "/g".toList, .remove "/g".toList]).lookup
     (keyOfStr "/a/f".toList) = some 2 := by decide
+
+/-! ### tie to the source: constants regenerated from the Go code on every run -/
+
+/-- `chmodBits`, the access-mode bits that make a handle writable, and the size a directory reports
+    are the ones written in memmap.go / mem/file.go (extracted by harness/cmd/facts) -/
+theorem constants_are_source :
+    chmodBits = Generated.chmodBits ∧ (O_WRONLY ||| O_RDWR) = Generated.memAccessMask ∧ Generated.dirSize = 42 := by decide
 
 end AferoVerif.C01
